@@ -22,6 +22,7 @@ LETTERS = {
     "CL0": ["CL", {}],  # closed, results not yet declared (runners still ACTIVE); a later CL carries them
     "MD": ["MD"],
     "OPN": ["OPN"],
+    "SUS": ["SUS"],
     "CLx": ["CL", {1: "LOSER", 2: "WINNER"}],  # re-settlement: the result is changed by a later closing book
 }
 
@@ -431,7 +432,7 @@ def run(tier):
                     continue
                 jobs.append(((s,), n_orders, n_clients, subs, False, "WIN"))
     # re-settlement: a later closing book changes the result (after a re-open, or as a repeated CLOSED book)
-    for s in (("U", "CL", "OPN", "CLx"), ("T", "CL", "CLx"), ("U", "CL", "MD", "CLx"), ("U", "CL0", "CLx", "CL"), ("U", "CLx", "OPN", "U", "CL")):
+    for s in (("U", "CL", "SUS", "CLx"), ("U", "CL", "SUS", "CL", "MD"), ("U", "CL", "OPN", "CLx"), ("T", "CL", "CLx"), ("U", "CL", "MD", "CLx"), ("U", "CL0", "CLx", "CL"), ("U", "CLx", "OPN", "U", "CL")):
         for n_orders in (1, 3):
             for n_clients, subs in ((1, sub_sets[0]), (2, sub_sets[1])):
                 jobs.append(((s,), n_orders, n_clients, subs, False, "WIN"))
